@@ -31,9 +31,12 @@ THEOREMS = [
     "Qentem.Props.C09.strToNum_offset_bounds",
     "Qentem.Props.C09.bigint_steps_exact",
     "Qentem.Props.C09.overflow_reported_partial",
+    "Qentem.Props.C09.real_within_one_ulp_pos",
+    "Qentem.Props.C09.negScale_error_bound",
+    "Qentem.Props.C09.strToNum_digits_to_end",
 ]
-OPEN = ["Qentem.Props.C09.real_within_one_ulp (stated; searched by the exact-Rat oracle on the C++ results)",
-        "Qentem.Props.C09.overflow_reported (stated; searched by the oracle; the repaired exponent test is proved in overflow_reported_partial)"]
+OPEN = ["Qentem.Props.C09.real_within_one_ulp (proved for integer mantissas of <= 19 digits with exponent >= 0: real_within_one_ulp_pos; open for fractions / negative net exponents, where negScale_error_bound gives the pipeline error; searched by the exact-Rat oracle on the C++ results)",
+        "Qentem.Props.C09.overflow_reported (proved for the same class inside real_within_one_ulp_pos and at the power-function level for every 64-bit mantissa; the general numeral statement stays open only because the parse of fraction+exponent shapes is not connected)"]
 
 D0, D9, DOT, LE, UE, PLUS, MINUS = 48, 57, 46, 101, 69, 43, 45
 
